@@ -20,6 +20,9 @@ EXPLANATION = (
 EXPLANATION += (
     ' ADDED: The length held in a local (n = len(data)) is followed.'
 )
+EXPLANATION += (
+    ' C17.1 also: work is submitted only to a pool created and joined by the call itself (`with ...Executor(...) as ex:`), so a failed call cannot return while sibling range reads are still seeking and reading on the shared handle.'
+)
 ASSUMPTIONS = [
     'concurrent.futures stores a worker exception in the future and re-raises it from result()',
     'file.read(n) returns fewer than n bytes only at end of file; the blob client returns what the service sent',
